@@ -120,7 +120,7 @@ def check_shape(seq, timeout_s):
             frames[(ty, "props")] = hr.get_df_for_agent(stats, ty, STATES, numeric, AGGT)
         return stats, frames
     try:
-        paths = S.explore(run, max_paths=8)
+        paths = S.explore(run, max_paths=64)
     except (S.PathCapExceeded, S.SolverUnknown, S.SymbolicEscape) as e:
         return "unknown", "explore: %r" % (e,), 0
     cells = 0
@@ -204,6 +204,9 @@ def check_shape(seq, timeout_s):
 
 def replay(case):
     import math
+    if case.get("kind") == "run_scenarios":
+        from checks import c13_run
+        return c13_run.replay(case)
     seq = tuple(case["seq"])
     env = case.get("env", {})
     alts = [env, {}, {"_alt": 1}]
@@ -313,7 +316,7 @@ def run(tier):
     from BPTK_Py import Model
     rep = harness.Report(PID, tier, "model_checking", MODULE)
     rep.encoded(dcm.DataCollector.collect_agent_statistics, dcm.DataCollector.statistics, Model.statistics,
-                HybridRunner.get_df_for_agent)
+                HybridRunner.get_df_for_agent, HybridRunner.run_scenario)
     _G["timeout"] = 20 if tier == "quick" else 60
     stubs = harness.Stubs()
     stubs.set("BPTK_Py.modeling.dataCollector", "max", S.sym_max)
@@ -336,6 +339,24 @@ def run(tier):
                 rep.inconcl("population %s: %s" % (seq, info))
             if len(samples) < 8 and (len(seq) >= 3 or st != "holds"):
                 samples.append({"population": [COMBOS[c] for c in seq], "verdict": st})
+        # part 2: what bptk.run_scenarios returns for agents (df / dict / json) through the real HybridRunner
+        from checks import c13_run, scen
+        scen.install_json_hooks(stubs)
+        part2 = 0
+        for n in ((2, 3) if tier == "quick" else (2, 3, 4)):
+            for variant in (0, 1, 2):
+                for fmt in ("df", "dict", "json"):
+                    part2 += 1
+                    r = c13_run.check(n, variant, fmt, _G["timeout"], spec_cell)
+                    if r is None:
+                        continue
+                    what, mdl = r
+                    if what.startswith("UNKNOWN"):
+                        rep.inconcl("run_scenarios n=%d variant=%d %s: %s" % (n, variant, fmt, what))
+                    else:
+                        env = {k: float(v) for k, v in (mdl or {}).items() if isinstance(v, (Fraction, int, float)) and not isinstance(v, bool)}
+                        kind = "missing" if "missing" in what else ("empty-not-zero" if "empty" in what else ("count" if "count" in what else ("raised" if "raised" in what else "aggregate")))
+                        rep.candidate("run_scenarios:%s:%s" % (fmt, kind), {"kind": "run_scenarios", "n": n, "variant": variant, "fmt": fmt, "env": env}, what)
         rep.canary("mean-divides-by-count-minus-one", canary_mean_stale())
         rep.canary("min-keeps-first-value", canary_min_is_first())
     finally:
@@ -350,8 +371,8 @@ def run(tier):
     rep.assume("property values are reals (Integer properties too); max/min in the collector namespace are ITE stubs with Python semantics",
                "agents of one type share one property set (as agent factories produce them)",
                "populations <= %d agents over 2 types x 2 states, 2 recorded times with state changes" % (4 if tier == "quick" else 5))
-    rep.coverage.update({"states": len(sh), "transitions": cells_total, "traces_validated_against_impl": len(bad),
+    rep.coverage.update({"states": len(sh) + part2, "run_scenarios_cases": part2, "transitions": cells_total, "traces_validated_against_impl": len(bad),
                          "samples": samples, "verdicts": counts, "exhaustive": True,
                          "explanation": "states = population shapes explored; transitions = statistic cells (solver obligations) decided",
-                         "outside": "populations beyond the bound, non-numeric properties, the run_scenarios json assembly"})
+                         "outside": "populations beyond the bound, non-numeric properties, a state that is never populated during the run"})
     return rep.finish()
